@@ -137,6 +137,12 @@ impl<L: Localize> OpeningHours<L> {
             .flatten()
     }
 
+    /// Verification hook: the lower bound used by the iterator to skip days.
+    #[cfg(ohrs_verif)]
+    pub fn verif_next_change_hint(&self, date: NaiveDate) -> Option<NaiveDate> {
+        self.next_change_hint(date)
+    }
+
     /// Get the schedule at a given day.
     pub fn schedule_at(&self, date: NaiveDate) -> Schedule {
         #[cfg(test)]
